@@ -499,16 +499,55 @@ type ReadResult struct {
 	EnvError bool
 }
 
+// visibleUploads returns the uploads whose content may be served for the
+// model key under the given instance name: the successfully completed ones
+// (after a crash: every attempted one). For a hierarchical store an upload
+// made under instance name I is visible under J only if I is a
+// component-wise prefix of J.
+func (w *World) visibleUploads(key, instance string) []*Upload {
+	ups := w.acked[key]
+	if w.Epoch > 0 {
+		ups = w.attempted[key]
+	}
+	if !w.Cfg.Hierarchical {
+		return ups
+	}
+	var out []*Upload
+	for _, u := range ups {
+		if instancePrefix(u.Instance, instance) {
+			out = append(out, u)
+		}
+	}
+	return out
+}
+
+// instancePrefix reports whether p is a component-wise prefix of j.
+func instancePrefix(p, j string) bool {
+	if p == "" {
+		return true
+	}
+	if j == "" {
+		return false
+	}
+	pc, jc := strings.Split(p, "/"), strings.Split(j, "/")
+	if len(pc) > len(jc) {
+		return false
+	}
+	for i := range pc {
+		if pc[i] != jc[i] {
+			return false
+		}
+	}
+	return true
+}
+
 // expectBytes checks data against the model for (o, instance).
 func (w *World) expectBytes(what string, o *Obj, instance string, data []byte) {
 	key := w.ModelKey(o, instance)
 	if d, ok := w.derived[key]; ok && bytes.Equal(d, data) {
 		return
 	}
-	ups := w.acked[key]
-	if w.Epoch > 0 {
-		ups = w.attempted[key]
-	}
+	ups := w.visibleUploads(key, instance)
 	for _, u := range ups {
 		if bytes.Equal(u.Data, data) {
 			return
@@ -734,10 +773,7 @@ func (w *World) evalFindMissing(items []ObjInst, missing digest.Set, err error, 
 		fmt.Fprintf(&sbuf, " %d@%q=%v", it.Obj.ID, it.Instance, present[i])
 		if present[i] {
 			key := w.ModelKey(it.Obj, it.Instance)
-			ups := w.acked[key]
-			if w.Epoch > 0 {
-				ups = w.attempted[key]
-			}
+			ups := w.visibleUploads(key, it.Instance)
 			if _, ok := w.derived[key]; !ok && len(ups) == 0 {
 				w.fatalf("FindMissing reports object %d (inst %q) present although no upload for that key ever completed successfully", it.Obj.ID, it.Instance)
 			}
